@@ -2,6 +2,24 @@
 over the shards; budgets are case counts, never time."""
 
 PROPS = {
+    "C15": {
+        "pkg": "c15", "needs_gw": True, "level": "exploration",
+        "technique": "property-based testing (rapid) over the endpoint catalogue x caller x target on a read-only gateway; oracle = storage snapshot equality, differential against a read-write twin on the same storage",
+        "level_text": ("Generated-input search: every S3 operation of the catalogue x path shape x target state (existing / missing / directory "
+                       "object / in-progress upload / versioned / locked) x caller role (root, admin, userplus, owner, non-owner) x auth style, "
+                       "correctly signed, is sent to a gateway in read-only mode that shares its storage with a normal gateway. Oracle: the "
+                       "snapshot of root + versioning + sidecar directories is unchanged; if the same request changes the storage on the normal "
+                       "twin the read-only gateway must have answered 4xx; a read request gets the same status and body from both. The "
+                       "real-process share runs `versitygw --readonly` (flag plumbing of cmd/versitygw)."),
+        "level_note": "admin API routes are not S3 API requests and are left out; the in-process twin pair runs in one process on one sandbox. Exploration only.",
+        "rule": ("case = (config, op, bucket, key, slash, copy source, caller, presign, chunked, engine). Non-trivial: the read-write twin mutates "
+                 "(in-process) / the catalogue marks the op as mutating (process); distinct by the full tuple."),
+        "assumptions": ["in-process engine replicates runGateway wiring; TestC15P uses the shipped binary with --readonly"],
+        "jobs": [
+            {"run": "TestC15A", "quick": 12000, "thorough": 400000, "shards_quick": 12, "shards_thorough": 16},
+            {"run": "TestC15P", "quick": 4000, "thorough": 100000, "shards_quick": 4, "shards_thorough": 16},
+        ],
+    },
     "C02": {
         "pkg": "c02", "needs_gw": True, "level": "exploration",
         "technique": "property-based testing (rapid) over an endpoint catalogue x credential-defect x body cross product; oracle = 4xx + byte-level storage snapshot equality + canary scan, with the harness' own SigV4 implementation as soundness filter",
